@@ -17,11 +17,11 @@ func verifC10ZK(ec elliptic.Curve) {
 	// coin excluded: a Fiat-Shamir challenge that is 0 modulo the group order
 	v.Summarise("challenge-independent")
 	q := ec.Params().N
-	x := v.NondetNat("x")
+	x := v.NondetNat(verifC10Pfx + "x")
 	v.Assume("witness-in-Zq*", v.InRange(x, big.NewInt(1), q))
 	X := crypto.ScalarBaseMult(ec, x)
 	// coins excluded: nonce a = 0, response t = 0 mod q (probability 2^-256 each)
-	rd := v.ReaderWith("r", func(k int, a *big.Int) bool { return a.Sign() != 0 })
+	rd := v.ReaderWith(verifC10Pfx+"r", func(k int, a *big.Int) bool { return a.Sign() != 0 })
 	pf, err := NewZKProof(verifSession(), x, X, rd)
 	v.Assert("prover-succeeds", err == nil)
 	if err != nil {
@@ -32,7 +32,24 @@ func verifC10ZK(ec elliptic.Curve) {
 	v.Reach("end")
 }
 
+var verifC10Pfx = ""
+
 func VerifHarness_C10_schnorr_zk_secp() { verifC10ZK(tss.S256()) }
+
+// a multi-step history in one process: proofs on one curve, then on the other (process-wide
+// state such as a cached group order or base point must not leak from one curve to the next)
+func VerifHarness_C10_schnorr_zk_ed_then_secp() {
+	verifC10ZK(tss.Edwards())
+	verifC10Pfx = "second_"
+	verifC10ZK(tss.S256())
+	v.Reach("both-curves")
+}
+func VerifHarness_C10_schnorr_zk_secp_then_ed() {
+	verifC10ZK(tss.S256())
+	verifC10Pfx = "second_"
+	verifC10ZK(tss.Edwards())
+	v.Reach("both-curves")
+}
 func VerifHarness_C10_schnorr_zk_ed()   { verifC10ZK(tss.Edwards()) }
 
 // the two-witness proof (V = s*R + l*G): honest proofs verify, for every witness pair,
